@@ -77,6 +77,14 @@ def _gen_terms(ch: core.Chooser, nv: int, nterms: int, small: bool = False) -> D
             e[at], e[at + 1] = ch.between(0xC2, 0xDF) - 59, ch.between(0x80, 0xBF) - 59
         if e not in exps:
             exps.append(e)
+    if exps and nv >= 2 and not small and ch.chance(0.35):
+        # distinct tuples that differ in a single coordinate only (the hardest ones to keep apart)
+        base = list(exps[ch.below(len(exps))])
+        j = ch.choice([0, 0, nv - 1, ch.below(nv)])
+        twin = list(base)
+        twin[j] = base[j] + ch.choice([1, 2, 65536, 4096]) if ch.chance(0.7) else 0
+        if twin not in exps:
+            exps.append(twin)
     return {"exponents": exps, "coefficients": [ch.choice([-3, -2, -1, 1, 2, 3]) for _ in exps]}
 
 
@@ -101,7 +109,7 @@ def generate(rs: int, tier: str, index: int) -> dict:
         return {"property": ID, "run_seed": rs, "tier": tier, "prelude": prelude.gen_prelude(core.Chooser(rs, "prelude")),
                 "steps": [{"id": 0, "k": "journey", "names": [ch.choice(["q0", "q3"])], "start": {"exponents": [[e]], "coefficients": [ch.choice([1, 2, -3])]},
                            "stages": [{"stage": "pow", "n": n, "observe": False}]}]}
-    nv = ch.between(1, 3)
+    nv = ch.weighted([(3, 1), (3, 2), (3, 3), (1, 4), (1, 5)])
     names = model.gen_names(ch.sub("n"), nv, nv)
     start = _gen_terms(ch.sub("t"), nv, ch.between(1, 3))
     stages = []
@@ -111,6 +119,7 @@ def generate(rs: int, tier: str, index: int) -> dict:
         st: Dict[str, Any] = {"stage": kind}
         if kind in ("align", "mul"):
             st["partner"] = _gen_terms(c.sub("p"), nv, c.between(1, 2), small=c.chance(0.4))
+            st["subset_names"] = c.chance(0.4)  # the partner lists only the indeterminates it uses (another names tuple)
         if kind == "pow":
             st["n"] = c.choice([2, 2, 3])
             if c.chance(0.25):
@@ -146,6 +155,12 @@ def _build(m: Dict[tuple, int], names: List[str]) -> Any:
     exps = [list(k) for k in m]
     return numpoly.polynomial_from_attributes(numpy.array(exps, dtype=numpy.int64).reshape(len(exps), len(names)), [numpy.array(v) for v in m.values()],
                                               tuple(names), retain_coefficients=True, retain_names=True)
+
+
+def _build_subset(m: Dict[tuple, int], names: List[str]) -> Any:
+    """The same polynomial, built over the indeterminates it actually uses only."""
+    used = [j for j in range(len(names)) if any(k[j] for k in m)] or [0]
+    return _build({tuple(k[j] for j in used): v for k, v in m.items()}, [names[j] for j in used])
 
 
 def _read(p: Any, names: List[str]) -> Dict[tuple, int]:
@@ -291,12 +306,12 @@ class Runner:
                     res = numpoly.polynomial(raw, names=p.names)
                     want = m
                 elif kind == "align":
-                    partner = _build(_to_model(st["partner"]), names)
+                    partner = (_build_subset if st.get("subset_names") else _build)(_to_model(st["partner"]), names)
                     res, _ = numpoly.align_polynomials(p, partner)
                     want = m
                 elif kind == "mul":
                     pm = _to_model(st["partner"])
-                    partner = _build(pm, names)
+                    partner = (_build_subset if st.get("subset_names") else _build)(pm, names)
                     res = p * partner
                     want = {}
                     for k1, c1 in m.items():
